@@ -137,7 +137,7 @@ func (fields List) Set(field Field) List {
 				return List{delfield(b, s, i)}
 			}
 			prev := bfield(name, kind, data)
-			if prev.Value().Equals(field.Value()) {
+			if prev.Value().Same(field.Value()) {
 				// no change
 				return fields
 			}
